@@ -245,6 +245,12 @@ Definition ip_equal (a b : bytes) : bool := bytes_eqb (ip_norm a) (ip_norm b).
 Definition ip_unspecified (ip : bytes) : bool :=   (* net.IP.IsUnspecified: 0.0.0.0, ::, ::ffff:0.0.0.0 *)
   let n := ip_norm ip in ((length n =? 4)%nat || (length n =? 16)%nat) && forallb (fun b => (zb b =? 0)%Z) n.
 
+(* conn.RemoteAddr() as the rewriter sees it: a *net.TCPAddr (IP bytes and zone; the zone of a
+   link-local IPv6 address plays no role: net.IP.Equal compares the IP bytes) or any other
+   net.Addr, of which only String() would be known and which the handler does not interpret *)
+Inductive caddr := CTcp (ip zone : bytes) | COther (s : bytes).
+Definition client_ip_of (c : caddr) : option bytes := match c with CTcp ip _ => Some ip | COther _ => None end.
+
 (* associateSourceRewriter (socks5_handler.go): an ASSOCIATE request that announces no address is
    pinned to the IP of the client's TCP connection (when that is known) *)
 Definition pin_source (client : option bytes) (ip : bytes) : bytes :=
@@ -253,6 +259,10 @@ Definition pin_source (client : option bytes) (ip : bytes) : bytes :=
        | Some c => if (length c =? 0)%nat || ip_unspecified c then ip else c
        | None => ip
        end.
+(* associateSourceRewriter.Rewrite: the address the library's source check will be given *)
+Definition rewrite (client : caddr) (cmd : Z) (ip : bytes) : bytes :=
+  if (cmd =? 3)%Z then pin_source (client_ip_of client) ip else ip.
+
 Definition relay_accepts (dst_ip : bytes) (dst_port : Z) (src_ip : bytes) (src_port : Z) : bool :=
   (ip_unspecified dst_ip || ip_equal dst_ip src_ip) && ((dst_port =? 0) || (dst_port =? src_port))%Z.
 
